@@ -39,7 +39,7 @@ LsTags == pc = "lstags" /\ UNCHANGED filesChanged /\
            ELSE EmitTags /\ (IF Fails("lstags") THEN Fail ELSE Goto("gate") /\ UNCHANGED exit))
 \* the gate lists the tags of all branches once more when uniqueness is demanded
 Gate == pc = "gate" /\ UNCHANGED filesChanged /\
-        (IF conf.unique THEN EmitTags /\ (IF Fails("lstags") THEN Fail ELSE Goto("aftergate") /\ UNCHANGED exit)
+        (IF conf.unique \/ conf.ignore THEN EmitTags /\ (IF Fails("lstags") THEN Fail ELSE Goto("aftergate") /\ UNCHANGED exit)
          ELSE Goto("aftergate") /\ UNCHANGED <<log, exit>>)
 AfterGate == pc = "aftergate" /\ UNCHANGED <<log, exit, filesChanged>> /\ Goto(IF conf.dry THEN "done" ELSE IF MCommit(conf) THEN "status" ELSE "write")
 Status == pc = "status" /\ Emit("status") /\ UNCHANGED filesChanged
